@@ -223,7 +223,7 @@ def r2(ctx, R):
     if ws:
         R.bad(uv, ws[0], "the entry of the new value is overwritten: references already bound to it drop out of the registry "
                          "and its spec is released too early")
-    if not ext or [norm(a) for a in ext[0].args] != ["newrefs"] or not pp or norm(pp[0].args[0]) != "prev_id" \
+    if not ext or [norm(a) for a in ext[0].args] != ["newrefs"] or not pp or q.anorm(uv, pp[0].args[0]) != "id(old_value)" \
             or not q.calls(uv, name="_impl_change_ref"):
         R.bad(uv, uv.node, "update_value does not move the references to the new value", stmt="update_value")
     elif not q.dominated(uv, pp, ext[0]):
